@@ -1248,6 +1248,7 @@ fn run_write_failures(w: &mut Worker, plan: &Plan, zone: usize, hist: &[usize], 
 fn main() {
     // a stack overflow / abort in the code under test must become a verdict, not a dead check
     vcore::supervise("C14");
+    vcore::install_log_evaluation(); // logging is part of the environment: log arguments are evaluated as under a real subscriber
     let ctx = Ctx::from_args("C14", "fault_enumeration");
     let thorough = !ctx.quick();
     // one work unit is a few hundred real exchanges; leave room for a heavily loaded machine
